@@ -353,6 +353,16 @@ class Analyzer:
                 return ("some", r_) if m_.group(1) == "checked" else r_
             if c in ("core::intrinsics::transmute", "std::mem::transmute", "core::mem::transmute") and n["args"]:
                 return self.val(n["args"][0], env)
+            if c.endswith("alloc::layout::Layout::from_size_align") and len(n["args"]) == 2:
+                # `Layout::from_size_align(n_bytes, align)?.size()` is n_bytes again
+                v_ = self.val(n["args"][0], env)
+                return ("ok", ("layoutsz", v_)) if v_ is not None else None
+            if c.endswith(("alloc::layout::Layout::from_size_align_unchecked",)) and len(n["args"]) == 2:
+                v_ = self.val(n["args"][0], env)
+                return ("layoutsz", v_) if v_ is not None else None
+            if c.endswith("alloc::layout::Layout::size") and n["args"]:
+                v_ = self.val(n["args"][0], env)
+                return v_[1] if v_ is not None and v_[0] == "layoutsz" else None
             if c in ("core::option::Option::ok_or", "core::option::Option::ok_or_else") and n["args"]:
                 # `a.checked_mul(b).ok_or(E)?` is the `let Some(x) = a.checked_mul(b) else { return Err(E) }` idiom
                 v_ = self.val(n["args"][0], env)
